@@ -5,6 +5,7 @@
       eng    greedy_decode_ctc(scores N x C x T, chars)                     (the engine's batched decoder)
       alone  GreedyDecoder(letters)(log_softmax of line n).best_hyp()       (the stand-alone decoder, per line)
       ocr    PytorchEngineLineOCR.run_ocr(batch) with a stub network that returns the same scores
+      filt   char_confidences.greedy_filtration(softmax of line n, chars)[0]  (the greedy text behind the per-character confidences)
    Texts are recorded as class indices through the inverse character table (an unknown character is 99).
    Accepted iff every text of every line equals Collapse(paths[n]) - the definition in the statement; Greedy.tla proves
    that the scan and the vectorised algorithm both equal it.  verdict = 0 or the number of the first failing clause.   *)
@@ -20,6 +21,7 @@ Judge == IF Tr.outcome # "ok" THEN 1
          ELSE IF ~TextsOK(Tr.eng) THEN 2
          ELSE IF ~TextsOK(Tr.alone) THEN 3
          ELSE IF ~TextsOK(Tr.ocr) THEN 4
+         ELSE IF ~TextsOK(Tr.filt) THEN 5
          ELSE 0
 
 TInit == /\ tid \in 1..NTraces
